@@ -140,9 +140,16 @@ def prepare(scratch):
     return crate, meta, harness
 
 
-def run_unit(scratch, tier):
+C03_OBS = {"has_unique_ref_contract", "has_unique_ref_complete_contract", "get_mut_contract", "make_mut_contract", "try_unwrap_contract", "strong_count_contract"}
+
+
+def run_for(scratch, tier, prop):
+    return run_unit(scratch, tier, only=(C03_OBS if prop == "C03" else None))
+
+
+def run_unit(scratch, tier, only=None):
     crate, meta, harness = prepare(scratch)
-    specs = list(SPECS)
+    specs = [x for x in SPECS if only is None or x["name"] in only]
     canary = dict(name="canary_must_fail", kind="canary", contract="assert!(false) behind the unit's preconditions")
     # canary harness appended to the crate
     lib = read(os.path.join(crate, "src/lib.rs"))
